@@ -6,6 +6,7 @@ the DDict hash-set probe (the frame header's dictID is attacker-controlled) and 
 import ZstdVerif.Model.DDictHS
 import ZstdVerif.Model.Bits
 import ZstdVerif.Lemmas.ExecRT
+import ZstdVerif.Lemmas.TableSafe
 namespace ZstdVerif.Props.C03
 open ZstdVerif ZstdVerif.DDictHS ZstdVerif.Gen.DDictHS
 
@@ -107,5 +108,77 @@ theorem exec_decoded_no_oob (dict lits : ByteArray) (o : Exec.Out) (chk : R Unit
     Exec.runChecked dict o lits (Block.decodeSeqs llT ofT mlT nbSeq sLL0 sOF0 sML0 r0 rep0).seqs.toList chk =
       some (Exec.run dict o lits (Block.decodeSeqs llT ofT mlT nbSeq sLL0 sOF0 sML0 r0 rep0).seqs.toList chk) :=
   Block.exec_decoded_no_oob dict lits o chk llT ofT mlT nbSeq sLL0 sOF0 sML0 r0 rep0 h0 h1 h2
+
+
+/-! ### entropy tables: no index leaves its table, whatever the bit stream says
+
+The model writes every table access `t[i]!`; each theorem below says that the twin which FAILS on an out-of-range index never fails. -/
+
+open TableSafe FSE in
+/-- **readNCount_normOK** (FSE_readNCount): whatever bytes a table description consists of, an ACCEPTED description is a normalised
+distribution: counts ≥ -1 summing to 2^tableLog, at most maxSymbolValue+1 symbols, 5 ≤ tableLog ≤ 15 -/
+theorem readNCount_normOK (src : Bytes) (start n maxSV : Nat) (nc : NCount) (h : FSE.readNCount src start n maxSV = .ok nc) :
+    NormOK nc.norm nc.tableLog ∧ nc.norm.size ≤ maxSV + 1 ∧ 5 ≤ nc.tableLog ∧ nc.tableLog ≤ 15 :=
+  TableSafe.readNCount_normOK src start n maxSV nc h
+
+open TableSafe FSE in
+/-- **fse_cells_closed** (FSE_buildDTable / ZSTD_buildFSETable): for a normalised distribution and a spreading that respects its counts, every
+cell keeps the state inside the table: `newState + 2^nbBits ≤ 2^tableLog`, `nbBits ≤ tableLog`, symbol inside the alphabet -/
+theorem fse_cells_closed {syms : Array Nat} {norm : Array Int} {L : Nat} (hN : NormOK norm L) (hS : SpreadOK syms norm L) :
+    (cellsOf syms norm L).size = 2 ^ L ∧ ∀ u, u < 2 ^ L →
+      ((cellsOf syms norm L)[u]!).nbBits ≤ L ∧
+      ((cellsOf syms norm L)[u]!).newState + 2 ^ ((cellsOf syms norm L)[u]!).nbBits ≤ 2 ^ L ∧
+      ((cellsOf syms norm L)[u]!).sym < norm.size :=
+  TableSafe.cell_closed hN hS
+
+open TableSafe in
+/-- the three predefined tables and every RLE table are closed -/
+theorem default_and_rle_tables_closed (sym : Nat) (base bits : List Nat) :
+    SeqClosed Gen.LL_defaultDTable.toArray Gen.LL_DEFAULTNORMLOG ∧ SeqClosed Gen.OF_defaultDTable.toArray Gen.OF_DEFAULTNORMLOG ∧
+    SeqClosed Gen.ML_defaultDTable.toArray Gen.ML_DEFAULTNORMLOG ∧ SeqClosed (FSE.rleSeqTable sym base bits) 0 :=
+  ⟨default_tables_closed.1, default_tables_closed.2.1, default_tables_closed.2.2, rleSeqTable_closed sym base bits⟩
+
+open TableSafe in
+/-- every table `Block.buildSeqTable` (ZSTD_buildSeqTable: predefined / RLE / FSE-described / repeat) hands to the sequence decoder is closed,
+given that the previous block's table was and that the spreading of an accepted description respects its counts (decidable; evaluated by the
+driver on every table of every run, proved for the predefined distributions) -/
+theorem block_tables_closed {mode : Nat} {src : Bytes} {ip iend maxSym maxLog : Nat} {base bits : List Nat}
+    {dflt : List Gen.SeqCell} {dfltLog : Nat} {prev : Array Gen.SeqCell} {prevLog : Nat} {fseValid : Bool}
+    {T : Array Gen.SeqCell} {log used : Nat}
+    (h : Block.buildSeqTable mode src ip iend maxSym maxLog base bits dflt dfltLog prev prevLog fseValid = .ok (T, log, used))
+    (hd : SeqClosed dflt.toArray dfltLog) (hp : fseValid = true → SeqClosed prev prevLog)
+    (hspread : ∀ nc, FSE.readNCount src ip (iend - ip) maxSym = .ok nc → FSE.SpreadOK (FSE.spread nc.norm nc.tableLog) nc.norm nc.tableLog) :
+    SeqClosed T log :=
+  TableSafe.block_buildSeqTable_closed h hd hp hspread
+
+open TableSafe in
+/-- **seq_states_inbounds** (ZSTD_decodeSequence / ZSTD_updateFseStateWithDInfo): with closed tables, for ANY reader state (any bytes) and any
+number of sequences, the three FSE state indices stay inside their tables in every iteration - the initial states being read exactly as
+`Block.prepare` reads them -/
+theorem seq_states_inbounds (llT ofT mlT : Array Gen.SeqCell) (llLog ofLog mlLog : Nat) (hLL : SeqClosed llT llLog)
+    (hOF : SeqClosed ofT ofLog) (hML : SeqClosed mlT mlLog) (nbSeq : Nat) (r0 : BitR) (rep0 : Array Nat) :
+    decodeSeqsChecked llT ofT mlT nbSeq (r0.read llLog).1 ((r0.read llLog).2.read ofLog).1
+        (((r0.read llLog).2.read ofLog).2.read mlLog).1 (((r0.read llLog).2.read ofLog).2.read mlLog).2 rep0 =
+      some (Block.decodeSeqs llT ofT mlT nbSeq (r0.read llLog).1 ((r0.read llLog).2.read ofLog).1
+        (((r0.read llLog).2.read ofLog).2.read mlLog).1 (((r0.read llLog).2.read ofLog).2.read mlLog).2 rep0) :=
+  TableSafe.decodeSeqs_from_stream_inbounds llT ofT mlT llLog ofLog mlLog hLL hOF hML nbSeq r0 rep0
+
+open TableSafe Huf HufRT in
+/-- **huf_lookup_inbounds** (HUF_readStats → HUF_readDTableX1 → HUF_decodeSymbolX1): whatever bytes a Huffman tree description consists of, if it
+is ACCEPTED the weights are complete (Kraft), the table has exactly 2^tableLog cells, and every lookup of the one-stream and four-stream
+decoders is inside it, for any stream bytes -/
+theorem huf_lookup_inbounds (src : Bytes) (start n hmax : Nat) (st : Stats) (h : readStats src start n hmax = .ok st) :
+    WeightsOK st.weights st.tableLog ∧
+    (tableCells st.weights.toList st.tableLog).length = 2 ^ st.tableLog ∧
+    (buildTable st).cells = (tableCells st.weights.toList st.tableLog).toArray ∧
+    (∀ (src2 : Bytes) (start2 len k : Nat) (out : ByteArray) (fp : Bool),
+      decode1Checked (buildTable st) src2 start2 len k out fp = lift (decode1 (buildTable st) src2 start2 len k out fp)) ∧
+    (∀ (src2 : Bytes) (start2 len k : Nat) (out : ByteArray),
+      decode4Checked (buildTable st) src2 start2 len k out = lift (decode4 (buildTable st) src2 start2 len k out)) :=
+  TableSafe.huf_lookup_inbounds_readStats src start n hmax st h
+
+open TableSafe in
+/-- a bit read of `n` bits is `< 2^n` in every reader state, over-reads included -/
+theorem read_lt (r : BitR) (n : Nat) : (r.read n).1 < 2 ^ n := TableSafe.read_lt r n
 
 end ZstdVerif.Props.C03
